@@ -509,5 +509,8 @@ def rule_valuetext(repo: Repo, rid: str) -> RuleResult:
 
 
 def rules(repo: Repo, tier: str) -> List[RuleResult]:
+    from . import c13
     return [rule_fields(repo, "C08.fields", FIELD_TABLE), rule_typedparams(repo), rule_nocollapse(repo), rule_operand_kinds(repo), rule_polarity(repo), rule_keywords(repo),
-            rule_balance(repo, "C08.balance", BALANCE_SITES), rule_order(repo), rule_options(repo)]
+            rule_balance(repo, "C08.balance", BALANCE_SITES), rule_order(repo), rule_options(repo),
+            # numeric constants of preconditions / effects survive the export up to the print precision (the tree printer is part of the writer)
+            c13.rule_round(repo, "C08.round", ["NumericalExpressionTree._convert_to_pddl"])]
